@@ -103,8 +103,21 @@ def rdLines (m : Mode) : RdState → List (List Nat) → Except (List FaRec × R
     | .ok s' => rdLines m s' ls
     | .error e => .error e
 
-/-- after the last line: flush a non-empty pending record; no records at all is an error -/
+/-- after the last line (repaired behaviour): the pending record is handled like every other one.
+    It is flushed when its buffer is non-empty OR a record was already emitted, so a last header
+    followed by no sequence is a record of length 0 and goes through the ordinary width check;
+    only when nothing at all was collected (no header, or one single header without a sequence)
+    there are no records, which is an error. -/
 def rdFinish (s : RdState) : Except (List FaRec × RdErr) (List FaRec) :=
+  if s.buf.length > 0 || s.counter > 0 then
+    if s.counter > 0 && s.buf.length != s.width then .error (s.out, .diffLen)
+    else .ok (s.out ++ [mkRec s])
+  else .error (s.out, .empty)
+
+/-- the loop end BEFORE the repair (kept for comparison only, not used by any reader): the pending
+    record was flushed only when its buffer was non-empty, so a last header followed by no
+    sequence was silently dropped. -/
+def rdFinishOld (s : RdState) : Except (List FaRec × RdErr) (List FaRec) :=
   if s.buf.length > 0 then
     if s.counter > 0 && s.buf.length != s.width then .error (s.out, .diffLen)
     else .ok (s.out ++ [mkRec s])
